@@ -130,6 +130,9 @@ impl AggregatedMetric {
                         "local drain metric {} underflow: previous value: {}, adding: {}",
                         key, before, v2
                     );
+                    #[cfg(sozu_verif)]
+                    crate::metrics::VERIF_GAUGE_UNDERFLOWS
+                        .fetch_add(1, std::sync::atomic::Ordering::SeqCst);
                     0
                 };
                 debug_assert!(
